@@ -1335,7 +1335,6 @@ func (e *Entry) FixChoice() {
 					},
 					Name:   ce.Name,
 					Kind:   CaseEntry,
-					Config: ce.Config,
 					Prefix: ce.Prefix,
 					Dir:    map[string]*Entry{ce.Name: ce},
 					Extra:  map[string][]interface{}{},
